@@ -1315,8 +1315,48 @@ func (e *Enc) bytesOf(st *State, v *Val) (*Val, error) {
 	if b, ok := sl.Elem().Underlying().(*types.Basic); !ok || b.Kind() != types.Uint8 {
 		return nil, fmt.Errorf("bytes() needs a []byte value")
 	}
+	h := e.heapGet(st, "S|"+typeStr(sl.Elem())+"|", "(Array Int (Array Int Int))")
+	return &Val{L: []Sc{{e.bseqTerm("(select "+h+" "+v.L[0].T+")", v.L[1].T, v.L[2].T), "Bytes"}}}, nil
+}
+
+// bseqTerm: the abstract content of the window [off, off+ln) of a byte backing array. When the prelude declares the
+// sequence vocabulary (ghost funcs blen / bempty / b1, see prelude 40_cpc_bytes.spec) the facts that tie a window to it
+// are asserted for this instance: its length, the empty window, the one-byte window.
+func (e *Enc) bseqTerm(arr, off, ln string) string {
 	e.declSort("Bytes")
 	f := e.declFun("bseq", []string{"(Array Int Int)", "Int", "Int"}, "Bytes")
-	h := e.heapGet(st, "S|"+typeStr(sl.Elem())+"|", "(Array Int (Array Int Int))")
-	return &Val{L: []Sc{{"(" + f + " (select " + h + " " + v.L[0].T + ") " + v.L[1].T + " " + v.L[2].T + ")", "Bytes"}}}, nil
+	t := "(" + f + " " + arr + " " + off + " " + ln + ")"
+	if e.bseqSeen == nil {
+		e.bseqSeen = map[string]bool{}
+	}
+	if e.bseqSeen[t] {
+		return t
+	}
+	e.bseqSeen[t] = true
+	if g, ok := e.DB.Ghosts["blen"]; ok && len(g.Params) == 1 && g.Body == nil {
+		if n, _, err := e.ghostSymbol(g); err == nil {
+			e.assert("(= (" + n + " " + t + ") " + ln + ")")
+		}
+	}
+	if g, ok := e.DB.Ghosts["bempty"]; ok && len(g.Params) == 0 && g.Body == nil {
+		if n, _, err := e.ghostSymbol(g); err == nil {
+			e.assert(implies(eq(ln, "0"), eq(t, n)))
+		}
+	}
+	if g, ok := e.DB.Ghosts["b1"]; ok && len(g.Params) == 1 && g.Body == nil {
+		if n, _, err := e.ghostSymbol(g); err == nil {
+			e.assert(implies(eq(ln, "1"), eq(t, "("+n+" (select "+arr+" "+off+"))")))
+		}
+	}
+	return t
+}
+
+// bcatFact: after append(s, t...) on byte slices the content of the result is the concatenation of the contents of
+// s and t (only when the prelude declares ghost func bcat).
+func (e *Enc) bcatFact(res, s, t string) {
+	if g, ok := e.DB.Ghosts["bcat"]; ok && len(g.Params) == 2 && g.Body == nil {
+		if n, _, err := e.ghostSymbol(g); err == nil {
+			e.assert(eq(res, "("+n+" "+s+" "+t+")"))
+		}
+	}
 }
